@@ -354,18 +354,31 @@ pub fn gen_linkaddr(thorough: bool, seed: u64, w: &mut dyn Write) {
         g.line(&format!("new o 0 {} 2048 c s", OUTST));
         let k = r.range(1, 12);
         for _ in 0..k {
-            match r.below(8) {
+            match r.below(9) {
                 0 => g.line(&format!("feed {}", hex(&ref_frame(0xC0, OUTST, MASTER, &[])))),
                 1 => g.line("reset"),
+                8 => {
+                    // a frame with a body that this station ignores (other destination / wrong direction / reserved
+                    // source), then user data without a single octet addressed to it (S149)
+                    let body = vec![0xC0 | (r.below(64) as u8), 0x55, 0x66];
+                    let (c, dst, src) = *r.pick(&[(0xC4u8, 77u16, MASTER), (0x44, OUTST, MASTER), (0xC4, OUTST, 0xFFF5), (0xC4, 0xFFFC, MASTER)]);
+                    // both in one read: the link layer skips the first and goes on to the second with the same
+                    // payload object
+                    let mut both = ref_frame(c, dst, src, &body);
+                    both.extend(ref_frame(0xC4, OUTST, MASTER, &[]));
+                    g.line(&format!("feed {}", hex(&both)));
+                }
                 2 | 3 => {
                     // any other link frame in between: only a VALID reset (PRM, right DIR, FCV = 0, to us) may
                     // change the secondary station's state — not one the layer says it ignores (S76)
-                    let mut c = if r.chance(1, 2) { *r.pick(&[0xD0u8, 0xF0, 0xE0, 0x40, 0x50, 0x80, 0x00, 0xC2, 0xD2, 0xF2, 0xC9, 0xD9, 0xC4, 0xD4, 0xC1, 0xCB]) } else { r.next() as u8 };
+                    let mut c = if r.chance(1, 2) { *r.pick(&[0xD0u8, 0xF0, 0xE0, 0x40, 0x50, 0x80, 0x00, 0xC2, 0xD2, 0xF2, 0xC9, 0xD9, 0xC4, 0xC4, 0xC4, 0xC4, 0xD4, 0xC1, 0xCB]) } else { r.next() as u8 };
                     if c & 0x4F == 0x43 {
                         c ^= 0x01; // confirmed user data is generated (and annotated) below
                     }
                     let dst = if r.chance(5, 6) { OUTST } else { *r.pick(&[0xFFFFu16, 77, 0xFFFC]) };
-                    let payload: Vec<u8> = if c & 0x4F == 0x44 { vec![0xC0 | (r.below(64) as u8), 0x55] } else { vec![] };
+                    // user data sometimes without any octet at all (a header-only frame): what is delivered then is
+                    // nothing — in particular not the body of an earlier frame that was for someone else (S149)
+                    let payload: Vec<u8> = if c & 0x4F == 0x44 && !r.chance(1, 3) { vec![0xC0 | (r.below(64) as u8), 0x55] } else { vec![] };
                     g.line(&format!("feed {}", hex(&ref_frame(c, dst, MASTER, &payload))));
                 }
                 _ => {
@@ -458,6 +471,39 @@ pub fn run(ops: &str, out: &mut dyn Write, mon: &mut dyn Write) {
                                 writeln!(mon, "MONITOR-FAIL {hdr} :: broadcast_never_acked :: confirmed data to {dst} acked").unwrap();
                             }
                         } else if kind == "fcb" {
+                            // whatever this feed delivered upwards is the body of a frame of THIS feed that the
+                            // station accepts as unconfirmed user data (to it or broadcast, from a master, FCV clear)
+                            if delivered_here > 0 {
+                                let b = unhex(h);
+                                let mut bodies: Vec<Vec<u8>> = Vec::new();
+                                let mut i = 0;
+                                while i + 10 <= b.len() && b[i] == 0x05 && b[i + 1] == 0x64 && b[i + 2] >= 5 {
+                                    let dl = b[i + 2] as usize - 5;
+                                    let trailer = (dl / 16) * 18 + if dl % 16 == 0 { 0 } else { dl % 16 + 2 };
+                                    if i + 10 + trailer > b.len() {
+                                        break;
+                                    }
+                                    let (c, dst, src) = (b[i + 3], u16::from_le_bytes([b[i + 4], b[i + 5]]), u16::from_le_bytes([b[i + 6], b[i + 7]]));
+                                    let mut body = Vec::new();
+                                    let mut j = i + 10;
+                                    let mut left = dl;
+                                    while left > 0 {
+                                        let n = left.min(16);
+                                        body.extend_from_slice(&b[j..j + n]);
+                                        j += n + 2;
+                                        left -= n;
+                                    }
+                                    if c & 0xCF == 0xC4 && c & 0x10 == 0 && (dst == local || dst >= 0xFFFD) && src < 0xFFF0 && !body.is_empty() {
+                                        bodies.push(body[1..].to_vec());
+                                    }
+                                    i += 10 + trailer;
+                                }
+                                for (_, _, data) in frags.iter().rev().take(delivered_here) {
+                                    if !bodies.iter().any(|x| x == data) {
+                                        writeln!(mon, "MONITOR-FAIL {hdr} :: delivered_data_is_from_accepted_frame :: {} octets delivered that no accepted user-data frame of this read carries", data.len()).unwrap();
+                                    }
+                                }
+                            }
                             // reference: the secondary station is reset by exactly the frames that are a valid
                             // RESET_LINK_STATES from a master to this outstation
                             let b = unhex(h);
